@@ -45,7 +45,9 @@ def specfile_sync(R, ctx, rule='R17.4'):
         if r.undecided:
             raise CheckError(f"{rule}: synchronize_subscriber_with_specfile UNDECIDED {r.undecided}")
         names = [e[0].split('::')[-1] for e in r.effects]
-        ok = repr(r.result).replace('$', '').startswith('Result::Ok')
+        res = repr(r.result).replace('$', '')
+        # Ok(..), or the result of the last step handed on (`subscriber.set_new_spec(spec)` / `spec.to_toml(&mut file)` as tail expression)
+        ok = res.startswith('Result::Ok') or bool(re.search(r'(set_new_spec|to_toml)#\d+$', res))
         isf = next((v for a, v in r.cond if 'Path::is_file(' in a), None)
         if isf is None:
             if r.effects and not ok:
